@@ -493,7 +493,9 @@ Proof.
   destruct ev as [m|sg v]; cbn [apply_event].
   - destruct (validate_vote_message true e st m) as [c st'] eqn:H. cbn [snd].
     destruct (step_wf true e st m c st' W H) as [W' HD'].
-    apply IH; auto; [eapply step_stored_ok; eauto|congruence|].
+    assert (SO' : stored_ok e st' = true) by exact (step_stored_ok e st m c st' W SO H).
+    assert (HD2 : s_head st' = head) by congruence.
+    apply (IH st' W' SO' HD2 OK').
     (* the node's own key never becomes an equivocator *)
     intros sg'' I. revert H. unfold validate_vote_message.
     destruct (m_sig_ok m); cbn [negb]; [|intro H; injection H as _ <-; exact (SC _ I)].
@@ -520,11 +522,11 @@ Proof.
       * intro H; injection H as _ <-. rewrite eqv_of_set_votes in I. exact (SC _ I).
   - destruct (OK (Own sg v) (or_introl eq_refl)) as [VO SV].
     assert (VO' : vote_ok e st v = true) by (rewrite <- VO; apply vote_ok_head; cbn; exact HD).
-    apply IH; auto.
-    + apply wf_store_vote; auto.
-    + now apply store_own_stored_ok.
-    + unfold store_own. now rewrite head_set_votes.
-    + intros sg'' I. unfold store_own in I. rewrite eqv_of_set_votes in I. exact (SC _ I).
+    assert (W' : wf e (store_own e st sg v)) by (apply wf_store_vote; auto).
+    assert (SO' : stored_ok e (store_own e st sg v) = true) by now apply store_own_stored_ok.
+    assert (HD2 : s_head (store_own e st sg v) = head) by (unfold store_own; now rewrite head_set_votes).
+    apply (IH _ W' SO' HD2 OK').
+    intros sg'' I. unfold store_own in I. rewrite eqv_of_set_votes in I. exact (SC _ I).
 Qed.
 
 (* ---- the end-to-end statement: from the history of received votes to the pre-commit ---- *)
